@@ -33,6 +33,8 @@ def build_tree(root):
         "outside/target.py": "t = 1\n",
         "outside/keep.txt": "sentinel outside everything\n",
         "cwd/sentinel.txt": "sentinel in the working directory\n",
+        DEFAULT_WS + "_runs/sentinel.txt": "sentinel in a working directory whose name contains the default workspace name\n",
+        DEFAULT_WS + "_runs/out/keep.txt": "user file in a sub-directory of that working directory\n",
         "settings/entry.yaml": '- method_list: ["%unit_init"]\n',
         "settings/source.yaml": "- lang: python\n  rules: []\n",
         "settings/sink.yaml": "- lang: python\n  rules: []\n",
@@ -46,12 +48,13 @@ def build_tree(root):
             f.write(text)
     os.symlink(os.path.join(root, "outside", "target.py"), os.path.join(root, "proj", "link.py"))
     os.symlink(os.path.join(root, "outside"), os.path.join(root, "proj", "linkdir"))
+    os.symlink(root, os.path.join(root, "via"))           # inputs can be spelled through a symlinked ancestor
     os.chmod(os.path.join(root, "proj", "notes.txt"), 0o640)
 
 
-def workspace_arg(root, placement):
+def workspace_arg(root, placement, cwdkind="plain"):
     """(-w argument or None, cwd)"""
-    cwd = os.path.join(root, "cwd")
+    cwd = os.path.join(root, "cwd" if cwdkind == "plain" else DEFAULT_WS + "_runs")
     if placement == "disjoint":
         return os.path.join(root, "wsdir"), cwd
     if placement == "inside_input":
@@ -127,23 +130,36 @@ def mock_bytes():
 
 
 def run_case(case):
-    placement, force, input_kind, preexisting, mockb = case
+    placement, flags, input_kind, preexisting, spelling, cwdkind, mockb = case
+    force = "f" in flags
+    inc = "inc" in flags
     root = tempfile.mkdtemp(prefix="c18_", dir=common.scratch_root())
     try:
         build_tree(root)
-        warg, cwd = workspace_arg(root, placement)
+        warg, cwd = workspace_arg(root, placement, cwdkind)
         eff = effective_workspace(warg, cwd)
         eff_real = os.path.realpath(eff)
+        base = os.path.join(root, "via") if spelling == "symlink" else root
+        inp = os.path.join(base, "proj") if input_kind == "dir" else os.path.join(base, "proj", "a.py")
+        env = dict(os.environ, PYTHONHASHSEED="0", LIAN_VERIF="1")
+        common_argv = ["/venv/bin/python", os.path.join(common.SRC, "lian", "main.py"), "lang", "-l", "python",
+                       "--default-settings", os.path.join(root, "settings")]
+        if inc:
+            # history: a forced run first, then the user drops a file into the workspace, then the run under test
+            first = common_argv + (["-w", warg] if warg is not None else []) + ["-f", inp]
+            subprocess.run(first, cwd=cwd, env=env, stdout=subprocess.DEVNULL, stderr=subprocess.DEVNULL, timeout=90)
+            if os.path.isdir(eff):
+                with open(os.path.join(eff, "user_note.txt"), "w") as f:
+                    f.write("dropped into the workspace between two runs\n")
         if preexisting:
             os.makedirs(os.path.join(eff, "src"), exist_ok=True)
             with open(os.path.join(eff, "foreign.txt"), "w") as f:
                 f.write("left by someone else\n")
             with open(os.path.join(eff, "src", "old.py"), "w") as f:
                 f.write("old = 1\n")
-        inp = os.path.join(root, "proj") if input_kind == "dir" else os.path.join(root, "proj", "a.py")
         in_bytes = 0
         if input_kind == "dir":
-            for dp, dn, fn in os.walk(inp):
+            for dp, dn, fn in os.walk(os.path.join(root, "proj")):
                 for f in fn:
                     p = os.path.join(dp, f)
                     if f.endswith(".py") and not os.path.islink(p) and not under(p, eff):
@@ -151,14 +167,14 @@ def run_case(case):
         else:
             in_bytes = os.path.getsize(inp)
         before = snapshot(root)
-        argv = ["/venv/bin/python", os.path.join(common.SRC, "lian", "main.py"), "lang", "-l", "python",
-                "--default-settings", os.path.join(root, "settings")]
+        argv = list(common_argv)
         if warg is not None:
             argv += ["-w", warg]
         if force:
             argv.append("-f")
+        if inc:
+            argv.append("-inc")
         argv.append(inp)
-        env = dict(os.environ, PYTHONHASHSEED="0", LIAN_VERIF="1")
         timed_out = False
         try:
             p = subprocess.run(argv, cwd=cwd, env=env, stdout=subprocess.PIPE, stderr=subprocess.STDOUT, timeout=90)
@@ -202,10 +218,13 @@ def run_case(case):
             problems.append(("copy-bound", f"{created} bytes created, bound {bound}"))
         if timed_out:
             problems.append(("timeout", "no exit within 90 s"))
-        if "Traceback (most recent call last)" in out:
+        n_created = sum(1 for rel in after if rel not in before)
+        if n_created > 40 * (len(before) + 60):
+            problems.append(("copy-bound", f"{n_created} paths created from a tree of {len(before)} paths"))
+        if "Traceback (most recent call last)" in out and not inc:
             last = [l for l in out.strip().splitlines() if l.strip()][-1][:200]
             problems.append(("traceback", last))
-        return {"case": list(case[:4]), "rc": rc, "problems": problems[:8], "created": created, "bound": bound,
+        return {"case": list(case[:6]), "rc": rc, "problems": problems[:8], "created": created, "bound": bound,
                 "out_tail": out[-400:], "n_before": len(before), "n_after": len(after),
                 "ran": "Traceback" not in out and rc == 0}
     finally:
@@ -218,7 +237,17 @@ def main():
     quick = common.tier() == "quick"
     placements = PLACEMENTS if quick else PLACEMENTS + THOROUGH_EXTRA
     mockb = mock_bytes()
-    cases = [(pl, f, k, pre, mockb) for pl in placements for f in (True, False) for k in ("dir", "file") for pre in (False, True)]
+    cases = [(pl, f, k, pre, "real", "plain", mockb) for pl in placements for f in ("f", "") for k in ("dir", "file") for pre in (False, True)]
+    # inputs spelled through a symlinked ancestor
+    cases += [(pl, "f", k, False, "symlink", "plain", mockb) for pl in placements for k in ("dir", "file")]
+    # working directory whose own name contains the default workspace name
+    cases += [(pl, "f", "dir", pre, "real", "named", mockb) for pl in placements for pre in (False, True)]
+    # histories: forced run, user file dropped into the workspace, then an incremental run without / with --force
+    cases += [(pl, fl, "dir", False, "real", "plain", mockb) for pl in placements for fl in ("inc", "f+inc")]
+    if not quick:
+        cases += [(pl, fl, k, pre, sp, cw, mockb) for pl in placements for fl in ("f", "inc") for k in ("dir", "file")
+                  for pre in (False, True) for sp in ("real", "symlink") for cw in ("plain", "named")
+                  if (sp, cw) != ("real", "plain")]
     results = []
     with concurrent.futures.ThreadPoolExecutor(16) as ex:
         for r in ex.map(run_case, cases):
@@ -232,14 +261,15 @@ def main():
         kinds = sorted({k for k, _ in r["problems"]})
         for k in kinds:
             first = next(d for kk, d in r["problems"] if kk == k)
-            pl, f, kind, pre = r["case"]
-            ident = f"placement={pl} force={f} input={kind} preexisting={pre}"
+            pl, f, kind, pre, sp, cw = r["case"]
+            ident = f"placement={pl} flags={f or '-'} input={kind} preexisting={pre} input_spelling={sp} cwd={cw}"
             rep.violation(k, f"{k}: {first}  [{ident}] created={r['created']}B bound={r['bound']}B out=...{r['out_tail'][-160:]!r}",
                           {"case": r["case"]}, size=PLACEMENTS.index(pl) if pl in PLACEMENTS else 99, ident=ident)
     new, known = rep.finish()
     evidence.write(PID, "exploration", {
         "evaluations": len(results), "distinct_nontrivial": completed,
-        "rule": "complete product placement x force x input kind x pre-existing workspace; a case is non-trivial when lian "
+        "rule": "complete product placement x flags x input kind x pre-existing workspace, plus placement x {input spelled via a "
+                "symlinked ancestor, cwd named like the default workspace, forced-run-then-incremental history}; a case is non-trivial when lian "
                 "actually ran the language phase to completion (the others are refusals, also checked for no side effects)",
         "samples": [r["case"] for r in results[:3]] + [r["case"] for r in results[-2:]],
         "exhaustive": True, "placements": placements, "outcomes": outcomes,
